@@ -17,6 +17,7 @@
 package vanguard
 
 import (
+	"bytes"
 	"fmt"
 	"net/http"
 	"time"
@@ -334,4 +335,43 @@ func VerifMatchRoute(t *Transcoder, uriPath, httpMethod string) VerifRouteMatch 
 		out.Allowed = append(out.Allowed, method)
 	}
 	return out
+}
+
+// VerifPoolOp is one operation on a fresh bufferPool: a Get, or (PutCap > 0) a
+// Put of a new buffer of that capacity holding Fill bytes of data.
+type VerifPoolOp struct {
+	PutCap int
+	Fill   int
+}
+
+// VerifPoolGot describes the buffer a Get returned: its length and capacity, and
+// the index of the Put operation the buffer came from (-1: newly allocated).
+type VerifPoolGot struct {
+	Len, Cap int
+	FromPut  int
+}
+
+// VerifPoolOps runs the operations on a fresh bufferPool.
+func VerifPoolOps(ops []VerifPoolOp) []VerifPoolGot {
+	var pool bufferPool
+	origin := map[*bytes.Buffer]int{}
+	var got []VerifPoolGot
+	for i, op := range ops {
+		if op.PutCap > 0 {
+			buf := bytes.NewBuffer(make([]byte, 0, op.PutCap))
+			for j := 0; j < op.Fill && j < op.PutCap; j++ {
+				buf.WriteByte('x')
+			}
+			origin[buf] = i
+			pool.Put(buf)
+			continue
+		}
+		buf := pool.Get()
+		from, ok := origin[buf]
+		if !ok {
+			from = -1
+		}
+		got = append(got, VerifPoolGot{Len: buf.Len(), Cap: buf.Cap(), FromPut: from})
+	}
+	return got
 }
